@@ -229,7 +229,30 @@ FinalQ(a, e, l, ws) ==
               THEN Check(a3, "C16.wait_woken",
                          \A j \in waits : Get(a.lastCap[e.out[j].ep], e.out[j].sid, 0) = 0, l, "", 0, [j \in waits |-> e.out[j]])
               ELSE a3
-    IN a4
+        \* C17: a reset / abandoned stream does not disturb the others
+        others == {j \in 1..Len(e.out) : e.out[j].sid # 0 /\ e.out[j].sid \notin a.resetS /\ e.out[j].op # "poll_push"}
+        a5 == IF a.coop /\ bothAlive /\ unblocked /\ clean /\ a.resetS # {} /\ ~a.panicked["c"] /\ ~a.panicked["s"]
+              THEN Check(a4, "C17.others_undisturbed", others = {}, l, "", 0, [j \in others |-> e.out[j]])
+              ELSE a4
+    IN a5
+
+\* C16 (f) / C06: capacity that nobody holds reaches a stream that can use it. At a quiescence (a census of every
+\* capacity() precedes it): if stream s has data accepted by send_data and not yet written, its stream credit and the
+\* connection credit are positive, and no other stream holds or needs any capacity, then that data must have been written.
+Pool(a, e, l, ws) ==
+    LET chk(b, ep) ==
+            IF ep \notin DOMAIN ws THEN b
+            ELSE LET w == ws[ep]
+                     live == {s \in DOMAIN w.st : s # 0 /\ w.st[s].o = "open" /\ w.st[s].fin /\ w.st[s].rstOut = 0 /\ w.st[s].i # "rst" /\ w.st[s].want = ""}
+                     idle(s) == Get(a.lastCap[ep], s, 0) = 0 /\ Unsent(a, w, ep, s) = 0
+                     starving == {s \in live : /\ Unsent(a, w, ep, s) > 0
+                                                /\ SatAdd(w.pa.iws, w.st[s].sw) > 0 /\ w.cw > 0 /\ w.owed = <<>>
+                                                /\ \A t \in live \ {s} : idle(t)}
+                 IN IF w.dead \/ w.ended \/ w.tainted \/ e.wblocked[ep] \/ a.panicked[ep] \/ live = {} THEN b
+                    ELSE IF \E s \in live : Unsent(a, w, ep, s) > 0
+                    THEN Check(b, "C16.pool", starving = {}, l, ep, IF starving = {} THEN 0 ELSE CHOOSE s \in starving : TRUE, starving)
+                    ELSE b
+    IN chk(chk(a, "c"), "s")
 
 ConnEnd(a, e) ==
     IF (e.call = "conn_poll" /\ e.res \in {"ok", "err"}) \/ e.call = "conn_drop" \/ (e.call = "handshake" /\ e.res = "err")
@@ -244,6 +267,7 @@ Step(a, e, l, ws) ==
     ELSE IF e.t = "census_begin" THEN [a EXCEPT !.censusOn = TRUE, !.censusSum = [c |-> 0, s |-> 0]]
     ELSE IF e.t = "census_end" THEN CensusEnd(a, l, ws)
     ELSE IF e.t = "qf" THEN FinalQ(a, e, l, ws)
+    ELSE IF e.t = "q" THEN Pool(a, e, l, ws)
     \* C08: the endpoint never panics, never spins
     ELSE IF e.t = "panic"
     THEN [Viol(Hit(a, "C08.panic"), "C08.panic", l, e.ep, 0, e.msg) EXCEPT !.panicked[e.ep] = TRUE]
